@@ -1,6 +1,5 @@
 """C42 — sortition pool status changes are only requested when permitted."""
 META = {
-    "disabled": True,
     "level": "model_checking",
     "text": "checkOperatorStatus / checkRewardsEligibility / MonitorPool and the join policies (ConjunctionPolicy, BetaOperatorPolicy) "
             "are specified query by query over a chain whose eight answers (in pool, up to date, locked, eligible, can restore, "
